@@ -119,7 +119,16 @@ def monitor(rep, idx, c):
                 "when two sources trigger in the same cycle only the later source's bit is recorded and the other event is lost",
                 lines=[d_.lineno for d_ in whole])
     elif whole:
-        rep.unk("C13.2", site, "pending update", "pending is driven as a whole; the per-source table cannot be compared")
+        # vector-wide update outside the loop: compare bit k (this source's bit) of the assignment with the per-source table
+        pseudo = c.bit_view(c.parse("self.pending"), k) if {d_.domain for d_ in whole} == {"sync"} else None
+        if pseudo is None:
+            rep.unk("C13.2", site, "pending update", "pending is driven as a whole and the assigned value cannot be projected onto one bit")
+        else:
+            c.w.extra.add(ir.show(c.norm(('sub', c.parse("self.pending"), k))))
+            check_dl(rep, "C13.2", c, "pending[k]' = sub.trg ? 1 : clear[k] ? 0 : hold (bit view of the vector-wide update)", pseudo, dl.HOLD,
+                     [("sub.trg", "1"), ("self.clear[k]", "0")], env)
+            rep.ok("C13.3", site, "pending bit index comes from the same sources() tuple as the source",
+                   "the bit view at index k resolved the trigger vector to this source's own trigger: its bit is written at index k")
     elif not pend:
         rep.bad("C13.2", site, "pending update", "no pending bit is ever driven")
     for dom, t, ds in pend:
